@@ -18,10 +18,14 @@ MANIFEST = {
     "text": "Every ordering option returns a bijection; sp_colorder produces A*Pc sharing A's arrays, composes the "
             "caller's ordering with a postorder only, and reports the postordered column etree of the final A*Pc "
             "(etree of Pc(A+A')Pc' in symmetric mode); part_super_h is a partition into consecutive blocks.",
-    "note": "MMD / COLAMD / qrnzcnt / cholnzcnt are not modelled: their outputs are checked per input by the "
-            "Coq-extracted verified checkers (check_perm, check_blocks) and by the independent reference.",
+    "note": "Proved in Coq for the model (all sizes): check_perm / check_blocks sound+complete; find (path halving) and "
+            "nr_etdfs terminate within explicit fuel; sp_coletree = sp_symetree = definitional elimination-game spec; "
+            "TreePostorder = recursive postorder (bijection, children first, contiguous subtrees); sp_colorder "
+            "(non-symmetric): perm_c_out = post o perm_c_in, AC columns, etree = spec of the FINAL A*Pc. Symmetric mode: "
+            "partial (conditional on the at_plus_a model returning). MMD / COLAMD / qrnzcnt / cholnzcnt are not modelled: "
+            "their outputs are checked per input by the extracted verified checkers and the independent reference.",
     "technique": "Coq 8.16 proofs on a hand-written Gallina model + per-run K-exact correspondence "
-                 "(C vs extracted model vs extracted definitional spec vs independent quadratic reference)",
+                 "(C -O2 and ASan builds vs extracted model vs extracted definitional spec vs independent quadratic reference)",
 }
 
 ASAN_ENV = {"ASAN_OPTIONS": "detect_leaks=0:halt_on_error=0:print_legend=0", "UBSAN_OPTIONS": "print_stacktrace=0",
